@@ -215,3 +215,65 @@ func HarnessC04Loop() {
 	}
 	vCover("checked")
 }
+
+
+// HarnessC04Component: what a component file assigns, and the names of its arguments, vanish when the use ends,
+// whether or not the use passes arguments; the page's own variables and the data are untouched.
+func HarnessC04Component() {
+	vfsReset()
+	vfsWriteFile("templates/components/c.tw", "{{ t = \"C\" }}{{ n = 1 }}<{{ t }}{{ n }}>")
+	use := []string{"@component(\"~c\")", "@component(\"~c\", {k: 1})", "@each(v in [1])@component(\"~c\")@end", "@if(true)@component(\"~c\")@end"}[vChoice("use", 4)]
+	var page, want string
+	var data map[string]any
+	mustFail := false
+	switch vChoice("after", 5) {
+	case 0: // the page's own variable of the same name
+		page, want = "{{ t = \"P\" }}"+use+"|{{ t }}", "<C1>|P"
+	case 1: // a data variable of the same name
+		page, want, data = use+"|{{ t }}", "<C1>|D", map[string]any{"t": "D"}
+	case 2: // a name the component introduced is not visible afterwards
+		page, mustFail = use+"|{{ n }}", true
+	case 3: // ... so the page may bind it with another type
+		page, want = use+"{{ n = \"s\" }}|{{ n }}", "<C1>|s"
+	default: // an argument name is not visible afterwards either
+		page, mustFail = "@component(\"~c\", {k: 1})|{{ k }}", true
+	}
+	vfsWriteFile("templates/page.tw", page)
+	tpl, err := newTemplate("templates", ".tw")
+	vCover("loaded")
+	vAssert(err == nil && tpl != nil, "tree-loads")
+	out, ferr := tpl.String("page", data)
+	if mustFail {
+		vAssert(ferr != nil && out == "", "name-bound-inside-the-component-is-gone-after-the-use")
+		return
+	}
+	vAssert(ferr == nil, "page-renders")
+	vAssert(out == want, "component-assignments-do-not-leak-into-the-page")
+}
+
+
+// HarnessC04Alias: a value copied into a nested block and changed there (postfix operators, append, re-assignment)
+// leaves what the enclosing block sees unchanged.
+func HarnessC04Alias() {
+	var src, want string
+	switch vChoice("shape", 7) {
+	case 0:
+		src, want = "{{ x = 2.5 }}@if(true){{ y = x }}{{ y = y-- }}{{ y }}@end|{{ x }}", "1.5|2.5"
+	case 1:
+		src, want = "{{ x = 2.5 }}@for(j = x; j > 0.0; j--)<{{ j }}>@end|{{ x }}", "<2.5><1.5><0.5>|2.5"
+	case 2:
+		src, want = "{{ x = 2.5 }}@each(v in [1])@if(true){{ y = x }}{{ y = y++ }}{{ y }}@end@end|{{ x }}", "3.5|2.5"
+	case 3:
+		src, want = "{{ n = 5 }}@if(true){{ m = n; m = m-- }}{{ m }}@end|{{ n }}", "4|5"
+	case 4:
+		src, want = "{{ a = [1] }}@if(true){{ b = a; b = b.append(2) }}{{ b }}@end|{{ a }}", "1, 2|1"
+	case 5:
+		src, want = "{{ o = {k: 1.5} }}@if(true){{ p = o.k; p = p-- }}{{ p }}@end|{{ o.k }}", "0.5|1.5"
+	default:
+		src, want = "@each(f in fs)@if(true){{ g = f; g = g-- }}@end{{ f }},@end|{{ fs }}", "2.5,0.5,|2.5, 0.5"
+	}
+	out, err := EvaluateString(src, map[string]any{"fs": []any{2.5, 0.5}})
+	vCover("rendered")
+	vAssert(err == nil, "well-scoped-program-renders")
+	vAssert(out == want, "reads-see-the-innermost-visible-binding-and-nested-assignments-do-not-leak")
+}
